@@ -2,6 +2,7 @@ package checks
 
 // Registry maps property ids to check entry points.
 var Registry = map[string]func(tier string) int{
+	"C01": C01,
 	"C03": C03,
 	"C04": C04,
 	"C05": C05,
